@@ -172,6 +172,8 @@ contract("CircuitGraphBranch.add_to_graph", params=dict(graph=GB, operation=OP),
              "forall(old(graph.get_node_iterator()), lambda n: exists(graph.get_node_iterator(), lambda m: m is n) and graph.parent_of(n) is old(graph.parent_of(n)))",
              "exists(graph.get_node_iterator(), lambda m: fresh(m) and m.operation is operation)",
              "forall(graph.get_node_iterator(), lambda m: m.operation is operation or exists(old(graph.get_node_iterator()), lambda n: n is m))",
+             # exactly one node carries the added operation
+             "forall(graph.get_node_iterator(), lambda a: forall(graph.get_node_iterator(), lambda b: a is b or a.operation is not operation or b.operation is not operation))",
              # no other operation's relation is touched
              "forall_obj(ICircuitOperation, lambda o: o is operation or o.relation_link is old(o.relation_link))",
              # no other graph is touched
